@@ -121,6 +121,10 @@ def run(ctx):
             continue
         # the result dictionary: only written (mutation / store), never read for a decision
         is_result = name.startswith(recv + ".")
+        if not is_result and "." not in name:
+            # ... or a local dictionary the parser hands back (alone, or as a field of the tuple / record it returns) for its caller to keep
+            returned = [t_ for _pc, t_, n_, _st in s.returns if n_ is not None]
+            is_result = bool(returned) and all(any(strip(x_)[0] in ("mut", "store", "loopvar", "local") and f"{name}" in show(x_)[:400] for x_ in subterms(t_)) for t_ in returned)
         only_written = True
         for node, t in s.ta.terms_at.items():
             for x in subterms(t):
@@ -161,6 +165,14 @@ def run(ctx):
         v = rst.env.get(f"{recv}._additional_capabilities")
         if v is not None:
             stores.append((v, rst))
+    if not stores:
+        # the parser returns its results: the flag is a field of the returned record, stored by the constructor
+        ini_ = prog.lookup_method(fn.cls, "__init__") if fn.cls is not None else None
+        if ini_ is not None:
+            for _pc, _t, _n, rst in summarize(prog, ini_).returns:
+                v = rst.env.get(f"{ini_.params[0]}._additional_capabilities")
+                if v is not None and any(call_is(x, fn.qual) for x in subterms(v)):
+                    stores.extend((t_, None) for _pc2, t_, n_, _st in s.returns if n_ is not None)
     flag_ok = False
     for v, rst in stores:
         for x in subterms(v):
